@@ -246,6 +246,13 @@ theorem shared_cache_cex {α : Type} (fresh₁ fresh₂ : Nat → Option α) (k 
     (h1 : fresh₁ k = some v) : (memo true fresh₂ (memo true fresh₁ [] k).2 k).1 = some v := by
   simp [memo, alookup, h1]
 
+/-- The unicode-map cache keyed by the collection name only and holding ONE table (whichever writing
+mode was asked for first): a font of the other writing mode loaded later gets the first table. The
+model's cache entry holds both tables, so the entry is a function of its key. -/
+theorem umap_mode_cex (tblH tblV : List (Nat × Nat)) (name : Nat) :
+    (memo true (fun _ => some tblV) (memo true (fun _ => some tblH) [] name).2 name).1 = some tblH :=
+  shared_cache_cex _ _ name tblH rfl
+
 /-! ## Non-vacuity: a concrete world and two colliding documents
 
 Both documents use object numbers 1–5 and 10–12; font object 3 is a simple font with
@@ -257,15 +264,15 @@ the documents. -/
 def W0 : World :=
   { encInit := [[(65, 65), (66, 66)], [(65, 97), (66, 98), (69, 101)], [], []],
     loadCMap := fun k => if k = 1 then some [(65, 5), (66, 6)] else none,
-    loadUMap := fun k => if k = 1 then some [(5, 12354)] else none }
+    loadUMap := fun k => if k = 1 then some ([(5, 12354), (6, 8594)], [(5, 12354), (6, 8593)]) else none }
 
 def simpleFont : FontSpec :=
-  { kind := 0, base := 1, diffs := [(66, some 8364), (69, none)], hasToUnicode := true, tounicode := [(67, [102, 105])],
+  { kind := 0, vertical := false, base := 1, diffs := [(66, some 8364), (69, none)], hasToUnicode := true, tounicode := [(67, [102, 105])],
     cmap := 0, umap := 0, usecmap := 1, reads := [4] }
 
 def cjkFont : FontSpec :=
-  { kind := 2, base := 0, diffs := [], hasToUnicode := false, tounicode := [], cmap := 1, umap := 1,
-    usecmap := 0, reads := [4] }
+  { kind := 2, vertical := false, base := 0, diffs := [], hasToUnicode := false, tounicode := [], cmap := 1,
+    umap := 1, usecmap := 0, reads := [4] }
 
 def docA : DocSpec :=
   { objs := [(1, .direct 101), (2, .direct 102), (3, .direct 103), (4, .direct 104), (10, .direct 110),
@@ -290,8 +297,17 @@ def hist0 : List Op :=
 example : (pagesSpec W0 docA []).map (·.glyphs) =
     [[[[97], [8364], [102, 105], [1114180], [1114181]]], [[[8364]], [[97]]]] := by decide
 
-/-- docB page 0 decodes through the predefined CMap and the unicode map: あ, (cid:6); code 67 has no glyph -/
-example : (pagesSpec W0 docB []).map (·.glyphs) = [[[[12354], [1114118]]]] := by decide
+/-- docB page 0 decodes through the predefined CMap and the horizontal unicode table: あ, →; code 67 has no glyph -/
+example : (pagesSpec W0 docB []).map (·.glyphs) = [[[[12354], [8594]]]] := by decide
+
+/-- the same collection in vertical writing (Identity-V): CID 6 is ↑, whatever was loaded before -/
+def vertFont : FontSpec := { cjkFont with kind := 3, vertical := true, reads := [] }
+def docV : DocSpec :=
+  { objs := [(1, .direct 301), (2, .direct 302), (10, .direct 310)], fontSpecs := [], openReads := [1],
+    pages := [⟨[2, 10], [.direct vertFont], [], [(0, [5, 6])], []⟩] }
+
+example : (step W0 (run W0 (init W0) [.extract docB true []]) (.extract docV true [])).2 =
+    .pages [⟨[some 302, some 310], [[[12354], [8593]]], []⟩] := by decide
 
 /-- docA page 0 paints one rectangle with line width 4 and leaves an unpainted path, a saved
 graphics state, line width 9 and a dangling operand behind; page 1 (stray `Q`, default line width)
